@@ -27,7 +27,42 @@ def import_fxpmath():
     import fxpmath
     here = os.path.realpath(os.path.dirname(fxpmath.__file__))
     assert here == os.path.realpath(os.path.join(REPO, 'fxpmath')), 'fxpmath imported from %s' % here
+    _unrelated_calls(fxpmath)
     return fxpmath
+
+
+_POLLUTED = set()
+
+
+def _unrelated_calls(fx):
+    """Once per process, BEFORE any measured call: a handful of unrelated public calls on throw-away objects that use templates,
+    like=, non-default configurations, scaling and constants.  None of them may leave anything behind (class attributes, module-level
+    caches, shared default arguments): every later case of this process is executed in their wake."""
+    if os.getpid() in _POLLUTED:
+        return
+    _POLLUTED.add(os.getpid())
+    try:
+        Fxp, Config = fx.Fxp, fx.Config
+        odd = dict(rounding='ceil', overflow='wrap', op_sizing='same', const_op_sizing='largest', shifting='trunc', op_input_size='best',
+                   op_method='repr', dtype_notation='Q', n_word_max=32, max_error=0.25)
+        c = Config(**odd)
+        Config(template=c)
+        t = Fxp(None, False, 7, 3, config=c)
+        Fxp(0.3 + 0.7j, template=t)
+        Fxp(0.3, template=Fxp(None, True, 9, 11, scale=3, bias=-2, **odd))
+        a = Fxp(5.3, like=t, **odd)
+        b = Fxp(2.75, True, 8, 2, scale=2, bias=1)
+        Fxp(2.75, True, 8, 2, scale=4)
+        Fxp(2.75, True, 8, 2, bias=0.5)
+        for f in (lambda: a + 1, lambda: 300 - a, lambda: a * 0.375, lambda: a & 3, lambda: ~a, lambda: a >> 1, lambda: a << 2, lambda: a / a, lambda: b + b,
+                  lambda: a.get_dtype('fxp'), lambda: a.bin(), lambda: a.hex(), lambda: Fxp('0b0101', like=a), lambda: Fxp(7.500244140625, max_error=1e-3),
+                  lambda: Fxp([0.1, 1000.3], n_word_max=8), lambda: fx.fxp_sum(Fxp([1, 2], True, 8, 2)), lambda: a.resize(True, 12, 5)):
+            try:
+                f()
+            except Exception:
+                pass
+    except Exception:
+        pass
 
 
 # ------------------------------------------------------------------ wire format
